@@ -47,6 +47,16 @@ pub fn filler(len: usize, tag: u64, mode: u8) -> Vec<u8> {
         };
         out.push(b);
     }
+    // dictionary: one payload in 16 (of at least 48 bytes) carries a string that means something elsewhere in the container or
+    // in a sibling framing - none of them contains a zero byte, so "mode 0 has no zeros" still holds
+    if len >= 48 && (tag ^ (tag >> 20)) % 16 == 3 {
+        const DICT: [&[u8]; 10] = [b"trun\x01", b"moof", b"mdat", b"OpusHead", b"OpusTags", b"stco", b"\xff\xf1\x4c\x80\x02\x1f\xfc", b"avcC\x01", b"tfdt\x01", b"\x0c\xff\xff\xff\x80"];
+        let d = DICT[((tag >> 8) % 10) as usize];
+        let at = 20 + ((tag >> 12) as usize % (len - 20 - d.len()).max(1));
+        if at + d.len() <= len {
+            out[at..at + d.len()].copy_from_slice(d);
+        }
+    }
     out
 }
 
@@ -114,10 +124,16 @@ pub fn nal_bytes(hevc: bool, g: &NalGene, tag: u64) -> Vec<u8> {
     } else {
         nal.push(((g.aux & 3) << 5) | (g.typ & 0x1f));
     }
+    if g.fill == 254 {
+        // filler-data style payload: 0xFF bytes and the rbsp trailing bits (what CBR / broadcast encoders pad with)
+        nal.extend(std::iter::repeat(0xffu8).take(g.len as usize));
+        nal.push(0x80);
+        return nal;
+    }
     let body = filler(g.len as usize, tag, g.fill % 4);
     // EPB over header+body so that a zero header byte followed by zeros is handled as well
     nal.extend_from_slice(&body);
-    if g.fill >= 192 {
+    if g.fill >= 192 && g.fill < 254 {
         // dictionary: the unit ends with the bytes of a box type (a byte search for a fourcc in the moov must not hit them)
         nal.extend_from_slice(FOURCC_DICT[(g.fill - 192) as usize % FOURCC_DICT.len()]);
     }
@@ -128,9 +144,13 @@ impl AnnexBFrame {
     /// Returns (annex-b bytes, list of NAL units as constructed)
     pub fn build(&self, hevc: bool, tag: u64) -> (Vec<u8>, Vec<Vec<u8>>) {
         let mut out = vec![0u8; self.lead_zeros as usize];
-        let mut units = Vec::new();
+        let mut units: Vec<Vec<u8>> = Vec::new();
         for (i, g) in self.nals.iter().enumerate() {
-            let nal = nal_bytes(hevc, g, tag.wrapping_add((i as u64) << 40));
+            // fill 255: a verbatim repetition of the previous unit of the same type (byte-identical duplicate)
+            let nal = match (g.fill == 255).then(|| self.nals[..i].iter().rposition(|p| p.typ == g.typ)).flatten() {
+                Some(j) => units[j].clone(),
+                None => nal_bytes(hevc, g, tag.wrapping_add((i as u64) << 40)),
+            };
             if g.sc4 {
                 out.extend_from_slice(&[0, 0, 0, 1]);
             } else {
